@@ -75,7 +75,7 @@ def recordStrategySuccess (cfg : Cfg) : M Unit := do
   match r.lastStrategy with
   | none => pure ()
   | some key =>
-    if cfg.stratRecords key then do
+    if cfg.records key then do
       let _ ← ask (.stratRecordSuccess key)
       pure ()
     else pure ()
@@ -103,7 +103,7 @@ def callStrategy (key : SKey) (kind : SKind) (ctx : BackoffCtx) : M SOut := do
   | _ => throw .stuck
 
 def stratRecordFailure (cfg : Cfg) (key : SKey) (k : EClass) : M Unit :=
-  if cfg.stratRecords key then do
+  if cfg.records key then do
     let _ ← ask (.stratRecordFailure key k)
     pure ()
   else pure ()
@@ -410,8 +410,10 @@ def raiseExhaustedCall (cfg : Cfg) : M Nat := do
 
 /-! ### runner/sync_core.py, async_core.py -/
 
-def invokeOp (attempt : Nat) : M Nat := do
-  let a ← ask (.op attempt)
+def invokeOp (_attempt : Nat) : M Nat := do
+  modify fun w => { w with opCalls := w.opCalls + 1 }
+  let w ← get
+  let a ← ask (.op w.opCalls)
   match a with
   | .value v _ => pure v
   | _ => throw .stuck
